@@ -37,6 +37,7 @@ type Prog struct {
 const Prelude = `def o(v: any) then println "#{v}"
 def t(s: String) then println s
 def cnd: Bool then true
+def hh: Int then 3
 using Std::Elk::AST::*
 `
 
@@ -77,6 +78,10 @@ func quoted(s Stmt, mi, i int) []string {
 		return []string{"o(!{unhygienic(e)})"}
 	case "cwrite":
 		return []string{"if cnd()", fmt.Sprintf("  %s = %d", s.N, v+5), "else", fmt.Sprintf("  %s = %d", s.N, v+5), "end"}
+	case "mcall":
+		return []string{"o(hh())"}
+	case "umcall":
+		return []string{"o(!{unhygienic(quote hh())})"}
 	}
 	panic("unknown statement " + s.K)
 }
@@ -90,6 +95,11 @@ func byHand(s Stmt, mi, i int, owner string) []string {
 		n = fmt.Sprintf("%sm%d", s.N, mi)
 	}
 	switch s.K {
+	case "mcall", "umcall":
+		if owner == "undef" {
+			return []string{"o(self.hh())"} // the method, whatever locals are in scope
+		}
+		return []string{"o(hh())"} // the callable local the reference resolves to
 	case "bind":
 		return []string{fmt.Sprintf("%s := %d", n, v)}
 	case "read", "uread", "arg", "uarg":
@@ -146,6 +156,9 @@ func (p *Prog) UnitText(variant string) (text string, call string) {
 	if p.Site.Y == "local" {
 		w(1, "y := 2")
 	}
+	if p.Site.Y == "callable" {
+		w(1, "hh := ||: Int -> 7")
+	}
 	ind := 1
 	if p.Site.X == "inclosure" {
 		w(1, "h := ||: nil ->")
@@ -180,6 +193,9 @@ func (p *Prog) UnitText(variant string) (text string, call string) {
 	}
 	if p.Site.Y == "local" || p.Site.Y == "probe" {
 		w(ind, "o(y)")
+	}
+	if p.Site.Y == "callable" {
+		w(ind, "o(hh())")
 	}
 	if p.Site.X == "inclosure" {
 		w(2, "nil")
